@@ -220,6 +220,18 @@ where
         }
     }
 
+    /// Forget everything about a peer whose last connection was closed.
+    pub(crate) fn on_peer_disconnected(&mut self, peer: PeerId) {
+        if self.peers_wantlists.remove(&peer).is_none() {
+            return;
+        }
+
+        self.peers_waiting_for_cid.retain(|_cid, peers| {
+            peers.retain(|p| **p != peer);
+            !peers.is_empty()
+        });
+    }
+
     fn update_handlers(&mut self) -> bool {
         if self.outgoing_queue.is_empty() {
             return false;
